@@ -632,6 +632,24 @@ func (e *Env) call(n *ECall) SV {
 		mar, _, _ := g.codecFns(ty, n.Fn == "marlp")
 		flat := g.flattenWith(xv.T, ty, func(srt string) string { return e.ft.stateGet(e.st, "H|"+srt, "(Array Int "+srt+")") })
 		return SV{"(" + mar + " " + flat + ")", goT(types.NewSlice(types.Typ[types.Byte]))}
+	case "mhas", "mget":
+		// mhas(m, k) / mget(m, k): membership and lookup in a Go map value (current state)
+		mv := e.ev(n.Args[0])
+		if mv.Ty == nil || mv.Ty.Go == nil {
+			efail("%s of untyped value", n.Fn)
+		}
+		mt, ok := mv.Ty.Go.Underlying().(*types.Map)
+		if !ok {
+			efail("%s of non-map", n.Fn)
+		}
+		_, _, cell := g.mapSorts(mt)
+		kv := e.coerceNil(e.ev(n.Args[1]), goT(mt.Key()))
+		h := e.ft.stateGet(e.st, "M|"+cell, "(Array Int "+cell+")")
+		cur := "(select " + h + " " + mv.T + ")"
+		if n.Fn == "mhas" {
+			return SV{fmt.Sprintf("(and (not (= %s 0)) (select (%s.dom %s) %s))", mv.T, cell, cur, kv.T), tBool}
+		}
+		return SV{fmt.Sprintf("(select (%s.val %s) %s)", cell, cur, kv.T), goT(mt.Elem())}
 	case "nextRef":
 		// nextRef(): allocation watermark; references >= nextRef() are not yet allocated
 		return SV{e.ft.stateGet(e.st, "$next", "Int"), tInt}
